@@ -12,6 +12,15 @@ THEOREMS = [
     "Claripy.Props.C11.C11_satisfiable_exact", "Claripy.Props.C11.C11_batch_eval_correct", "Claripy.Props.C11.C11_extrema_correct",
     "Claripy.Solver.z3Check_cases", "Claripy.Solver.batchEvalLoop_spec", "Claripy.Solver.extremaLoop_spec",
     "Claripy.Solver.key_wrap", "Claripy.Solver.key_range", "Claripy.Solver.key_inj",
+    # SolverCacheless: the whole mixin stack, every history (add/satisfiable/eval/min/max/solution/is_true/is_false/
+    # simplify/downsize)
+    "Claripy.Props.C11.C11_cacheless_refines", "Claripy.Props.C11.C11_cacheless_refines_or_gives_up",
+    "Claripy.Props.C11.C11_cacheless_step", "Claripy.Props.C11.C11_is_true_false_sound",
+    "Claripy.Props.C11.C11_hypotheses_consistent",
+    "Claripy.Solver.getSolver_spec", "Claripy.Solver.clSat_spec", "Claripy.Solver.clEval_spec",
+    "Claripy.Solver.clSolution_spec", "Claripy.Solver.clTruth_spec", "Claripy.Solver.clExtremum_spec",
+    "Claripy.Solver.clAdd_spec", "Claripy.Solver.clSimplify_spec", "Claripy.Solver.clDownsize_spec",
+    "Claripy.Solver.dedupAdd_spec", "Claripy.Solver.filter_spec",
 ]
 TESTS = []
 CLASSES = ["Solver", "SolverCacheless", "SolverStrings"]
